@@ -29,7 +29,10 @@ for (pid, mut), c in sorted(conf.items()):
     dst = os.path.join(V, 'seeded', sid)
     os.makedirs(dst, exist_ok=True)
     src = '/tmp/mut/%s.out' % pid
-    shutil.copy(os.path.join(src, mut + '.diff'), os.path.join(dst, 'patch.diff'))
+    if os.path.exists(os.path.join(dst, 'patch.orig.diff')):
+        shutil.copy(os.path.join(src, mut + '.diff'), os.path.join(dst, 'patch.orig.diff'))      # rebased onto a later /repo HEAD: patch.diff stays
+    else:
+        shutil.copy(os.path.join(src, mut + '.diff'), os.path.join(dst, 'patch.diff'))
     shutil.copy(os.path.join(src, mut + '_demo.rs'), os.path.join(dst, 'demo.rs'))
     if os.path.exists(os.path.join(src, 'notes.md')):
         shutil.copy(os.path.join(src, 'notes.md'), os.path.join(dst, 'author_notes.md'))
@@ -44,6 +47,8 @@ for (pid, mut), c in sorted(conf.items()):
         prev = json.load(open(old))
         if 'detected_by' in prev:
             meta['detected_by'] = prev['detected_by']
+        if 'rebased' in prev:
+            meta['rebased'] = prev['rebased']
     json.dump(meta, open(old, 'w'), indent=1)
     n += 1
 for (pid, mut), c in sorted(conf2.items()):
@@ -55,7 +60,10 @@ for (pid, mut), c in sorted(conf2.items()):
     dst = os.path.join(V, 'seeded', sid)
     os.makedirs(dst, exist_ok=True)
     src = '/tmp/mut2/%s.out' % pid
-    shutil.copy(os.path.join(src, mut + '.diff'), os.path.join(dst, 'patch.diff'))
+    if os.path.exists(os.path.join(dst, 'patch.orig.diff')):
+        shutil.copy(os.path.join(src, mut + '.diff'), os.path.join(dst, 'patch.orig.diff'))      # rebased onto a later /repo HEAD: patch.diff stays
+    else:
+        shutil.copy(os.path.join(src, mut + '.diff'), os.path.join(dst, 'patch.diff'))
     shutil.copy(os.path.join(src, mut + '_demo.rs'), os.path.join(dst, 'demo.rs'))
     if os.path.exists(os.path.join(src, 'notes.md')):
         shutil.copy(os.path.join(src, 'notes.md'), os.path.join(dst, 'author_notes.md'))
@@ -70,6 +78,8 @@ for (pid, mut), c in sorted(conf2.items()):
         prev = json.load(open(old))
         if 'detected_by' in prev:
             meta['detected_by'] = prev['detected_by']
+        if 'rebased' in prev:
+            meta['rebased'] = prev['rebased']
     json.dump(meta, open(old, 'w'), indent=1)
     n += 1
 
@@ -89,7 +99,10 @@ for (pid, mut), c in sorted(conf3.items()):
     dst = os.path.join(V, 'seeded', sid)
     os.makedirs(dst, exist_ok=True)
     src = '/tmp/mut3/%s.out' % pid
-    shutil.copy(os.path.join(src, mut + '.diff'), os.path.join(dst, 'patch.diff'))
+    if os.path.exists(os.path.join(dst, 'patch.orig.diff')):
+        shutil.copy(os.path.join(src, mut + '.diff'), os.path.join(dst, 'patch.orig.diff'))      # rebased onto a later /repo HEAD: patch.diff stays
+    else:
+        shutil.copy(os.path.join(src, mut + '.diff'), os.path.join(dst, 'patch.diff'))
     shutil.copy(os.path.join(src, mut + '_demo.rs'), os.path.join(dst, 'demo.rs'))
     if os.path.exists(os.path.join(src, 'notes.md')):
         shutil.copy(os.path.join(src, 'notes.md'), os.path.join(dst, 'author_notes.md'))
@@ -104,6 +117,8 @@ for (pid, mut), c in sorted(conf3.items()):
         prev = json.load(open(old))
         if 'detected_by' in prev:
             meta['detected_by'] = prev['detected_by']
+        if 'rebased' in prev:
+            meta['rebased'] = prev['rebased']
     json.dump(meta, open(old, 'w'), indent=1)
     n += 1
 # ROUND4: third batch (told all known changes of the property; asked for different kinds, possibly hidden inside a behaviour-preserving refactor)
@@ -122,7 +137,10 @@ for (pid, mut), c in sorted(conf4.items()):
     dst = os.path.join(V, 'seeded', sid)
     os.makedirs(dst, exist_ok=True)
     src = '/tmp/mut4/%s.out' % pid
-    shutil.copy(os.path.join(src, mut + '.diff'), os.path.join(dst, 'patch.diff'))
+    if os.path.exists(os.path.join(dst, 'patch.orig.diff')):
+        shutil.copy(os.path.join(src, mut + '.diff'), os.path.join(dst, 'patch.orig.diff'))      # rebased onto a later /repo HEAD: patch.diff stays
+    else:
+        shutil.copy(os.path.join(src, mut + '.diff'), os.path.join(dst, 'patch.diff'))
     shutil.copy(os.path.join(src, mut + '_demo.rs'), os.path.join(dst, 'demo.rs'))
     if os.path.exists(os.path.join(src, 'notes.md')):
         shutil.copy(os.path.join(src, 'notes.md'), os.path.join(dst, 'author_notes.md'))
@@ -137,6 +155,8 @@ for (pid, mut), c in sorted(conf4.items()):
         prev = json.load(open(old))
         if 'detected_by' in prev:
             meta['detected_by'] = prev['detected_by']
+        if 'rebased' in prev:
+            meta['rebased'] = prev['rebased']
     json.dump(meta, open(old, 'w'), indent=1)
     n += 1
 print(n, 'seeded changes assembled')
